@@ -47,7 +47,7 @@ def stream(co, opc):
 def parse(text):
     rows = []
     for line in text.split("\n"):
-        if not line.strip() or line.startswith("#") or line.startswith("ExceptionTable") or re.match(r"^  \d+ to \d+ -> \d+ \[\d+\]", line):
+        if not line.strip() or line.startswith("#") or re.match(r"^\s{6,}# ", line) or line.startswith("ExceptionTable") or re.match(r"^  \d+ to \d+ -> \d+ \[\d+\]", line):
             continue
         m = ROW.match(line)
         if not m:
@@ -90,6 +90,27 @@ def main():
                         tf.write(text)
                 rec = {"id": "%s:%s" % (fmt, path), "fmt": fmt, "ver": ver, "raised": raised, "stdout": len(so.getvalue()), "stderr": len(se.getvalue()),
                        "rows": parse(text) if fmt in ("classic", "bytes") and not raised else [], "ins": ins if fmt in ("classic", "bytes") else [],
+                       "stream_error": err, "stdout_head": so.getvalue()[:80]}
+                fh.write(json.dumps(rec) + "\n")
+            # the same listing interleaved with source lines (show_source=True, pydisasm -S) where the source file exists: the source goes
+            # into '#' comment lines of its own, every instruction keeps its row
+            try:
+                src_ok = os.path.exists(co.co_filename) if not err else False
+            except Exception:
+                src_ok = False
+            if src_ok:
+                so, se, buf = io.StringIO(), io.StringIO(), io.StringIO()
+                sys.stdout, sys.stderr = so, se
+                raised = ""
+                try:
+                    with xd.forced_portable():
+                        disassemble_file(path, buf, "classic", show_source=True)
+                except BaseException as e:
+                    raised = "%s: %s" % (type(e).__name__, str(e)[:120])
+                finally:
+                    sys.stdout, sys.stderr = real_out, real_err
+                rec = {"id": "classic+source:%s" % path, "fmt": "classic", "ver": ver, "raised": raised, "stdout": len(so.getvalue()),
+                       "stderr": len(se.getvalue()), "rows": parse(buf.getvalue()) if not raised else [], "ins": ins,
                        "stream_error": err, "stdout_head": so.getvalue()[:80]}
                 fh.write(json.dumps(rec) + "\n")
 
